@@ -175,19 +175,67 @@ def gen_graph(rng, thorough):
     return [[ren[v] for v in f] for f in factors]
 
 
-def gen_raw(rng, thorough):
+PLATE_W = 8   # plated cases: variable b, plate element k <-> flattened id b * PLATE_W + k
+
+
+def gen_raw(rng, thorough, plate=False):
+    """plate=True: some variables carry a plate of 2-3 elements (array messages); the case is written over
+    flattened ids (every plate element is its own variable), which is what the model runs on"""
     factors = gen_graph(rng, thorough)
+    meta = {}
+    pl_n, plated, elems = 0, set(), {}
+    if plate:
+        while len(factors) > 5:
+            factors.pop()
+        used = sorted({v for f in factors for v in f})
+        ren = {v: i for i, v in enumerate(used)}
+        factors = [[ren[v] for v in f] for f in factors]
+        basev = sorted({v for f in factors for v in f})
+        pl_n = rng.choice([2, 3])
+        plated = {v for v in basev if rng.random() < 0.6} or {basev[0]}
+        elems = {v: ([v * PLATE_W + k for k in range(pl_n)] if v in plated else [v * PLATE_W]) for v in basev}
+        meta = {"plate": {"n": pl_n, "vars": sorted(plated)}, "base_factors": factors}
+        factors = [[fv for v in f for fv in elems[v]] for f in factors]
     nf = len(factors)
     allv = sorted({v for f in factors for v in f})
     init = [[[v, hx(rmean(rng)), hx(rsigma(rng))] for v in f] for f in factors]
     sim = Sim([{v: natf(unhex(mu), unhex(sg)) for v, mu, sg in f} for f in init])
     base = sim.copy()
     steps = []
-    key_edges = rng.random() < 0.12
-    stale_mode = rng.random() < 0.15
+    key_edges = rng.random() < 0.12 and not plate
+    stale_mode = rng.random() < 0.15 and not plate
+    # in-place write-back on the same EPMeanField object (stochastic EP): never mixed with stale approximations,
+    # whose base object would be mutated as well
+    inplace_mode = not stale_mode and not key_edges and (plate or rng.random() < 0.35)
     nsteps = rng.randint(1, 8 if not thorough else 12)
     for _ in range(nsteps):
         i = rng.randrange(nf)
+        if inplace_mode and sim.st[i] and rng.random() < (0.45 if plate else 0.35):
+            keys = list(sim.st[i].keys())
+            step = {"f": i, "stale": False, "barrier": False, "delta": {"t": "scalar", "d": hx(1.0)}, "index": None}
+            pkeys = [v for v in keys if v // PLATE_W in plated] if plate else []
+            if pkeys and rng.random() < 0.7:
+                idx = sorted(rng.sample(range(pl_n), rng.randint(1, pl_n)))
+                if rng.random() < 0.3:
+                    rng.shuffle(idx)
+                step["index"] = idx
+                step["via"] = rng.choice(["inplace_index", "inplace_setitem", "inplace_update"])
+                wkeys = [(v // PLATE_W) * PLATE_W + k for v in sorted({u - u % PLATE_W for u in pkeys}) for k in idx]
+                if rng.random() < 0.4 and len({u // PLATE_W for u in pkeys}) > 1:   # only some of the plated variables
+                    drop = rng.choice(sorted({u // PLATE_W for u in pkeys}))
+                    wkeys = [v for v in wkeys if v // PLATE_W != drop]
+            else:
+                step["via"] = "inplace"
+                wkeys = keys
+            newd = {v: (rmean(rng), rsigma(rng)) for v in wkeys}
+            step["new"] = [[v, hx(mu), hx(sg)] for v, (mu, sg) in newd.items()]
+            if step["index"] is None:
+                sim.st[i] = {v: natf(mu, sg) for v, (mu, sg) in newd.items()}
+            else:
+                for v, (mu, sg) in newd.items():
+                    sim.st[i][v] = natf(mu, sg)
+            steps.append(step)
+            continue
         barrier = stale_mode and rng.random() < 0.35
         stale = stale_mode and rng.random() < 0.7
         if barrier:
@@ -210,7 +258,8 @@ def gen_raw(rng, thorough):
             step["delta"] = {"t": "dynamic", "d0": hx(d0)}
             delta = sim.dynamic(d0)
         else:
-            ds = {v: rng.choice([0.5, 0.25, 0.75, 0.125, 0.5, 0.25, 1.0, 0.875]) for v in allv}
+            dsb = {v // PLATE_W if plate else v: rng.choice([0.5, 0.25, 0.75, 0.125, 0.5, 0.25, 1.0, 0.875]) for v in allv}
+            ds = {v: dsb[v // PLATE_W if plate else v] for v in allv}
             step["via"] = rng.choice(["project", "project", "fa_project"])
             step["delta"] = {"t": "pervar", "ds": [[v, hx(x)] for v, x in sorted(ds.items())]}
             delta = {v: Fr(x) for v, x in ds.items()}
@@ -230,7 +279,11 @@ def gen_raw(rng, thorough):
         if not any(sim.st):
             break
         steps.append(step)
-    return {"kind": "raw", "factors": factors, "init": init, "steps": steps}
+    return dict({"kind": "raw", "factors": factors, "init": init, "steps": steps}, **meta)
+
+
+def gen_plate(rng, thorough):
+    return gen_raw(rng, thorough, plate=True)
 
 
 def gen_par(rng, thorough):
@@ -402,8 +455,8 @@ def gen_cases(ctx):
         for f in sorted(os.listdir(corpus)):
             if f.endswith(".json"):
                 cases.append(json.load(open(os.path.join(corpus, f))))
-    n_raw, n_par, n_decl = (130, 50, 120) if not thorough else (900, 300, 800)
-    for gen, n in ((gen_raw, n_raw), (gen_par, n_par), (gen_decl, n_decl)):
+    n_raw, n_plate, n_par, n_decl = (120, 40, 45, 110) if not thorough else (800, 250, 300, 750)
+    for gen, n in ((gen_raw, n_raw), (gen_plate, n_plate), (gen_par, n_par), (gen_decl, n_decl)):
         made = 0
         while made < n:
             c = gen(rng, thorough)
@@ -589,7 +642,23 @@ def oracle_raw(c, r):
             fails.append((where + ": the update mutated the approximation it was applied to", []))
         if msg != after[s["f"]]:
             fails.append((where + ": reported factor message differs from the state", []))
+        if dmap(o["global_alias"]) != glob:
+            fails.append((where + ": model_dist (alias of mean_field) differs from mean_field", []))
         new = {v: fnat(unhex(mu), unhex(sg)) for v, mu, sg in s["new"]}
+        if s["via"].startswith("inplace"):
+            # write-back on the same object: the factor's messages are exactly what was written (the other
+            # plate elements kept), and EVERY later read reflects the current factor messages
+            expect = dict(new) if s.get("index") is None else {**state[s["f"]], **new}
+            mg = magnitude(expect, msg)
+            if set(expect) != set(msg) or any(not near(msg[v], expect[v], mg) for v in expect):
+                fails.append((where + ": in-place update did not store the written messages", []))
+            for j, pa in enumerate(o["post"]):
+                m = check_identities(after, j, dmap(pa["cavity"]), dmap(pa["own"]), dmap(pa["model"]), glob,
+                                     where + " read of factor %d after the in-place update" % j)
+                if m:
+                    fails.append((m, []))
+            state = after
+            continue
         fresh = src is state or src == state
         gb = {v: fsum(state, v) for v in {v for mm in state for v in mm}}
         m, bad = check_update(s, s["f"], cav, own, new, msg, gb, glob, o["success"], True, fresh, eff_delta(s, state), where)
@@ -892,15 +961,16 @@ def c_rdelta(d):
     return "(RDynamic %s)" % cqh(d["d0"])
 
 
-def c_rstep(f, d, stale, barrier, new, o):
-    return ("{| r_factor := %s; r_delta := %s; r_barrier := %s; r_stale := %s; r_new := %s; r_obs_cavity := %s; "
+def c_rstep(f, d, stale, barrier, new, o, mode=0):
+    return ("{| r_factor := %s; r_delta := %s; r_barrier := %s; r_stale := %s; r_mode := %s; r_new := %s; r_obs_cavity := %s; "
             "r_obs_model := %s; r_obs_msg := %s; r_obs_global := %s; r_obs_success := %s; r_obs_updated := %s |}" % (
-                cnat(f), c_rdelta(d), cbool(barrier), cbool(stale), c_in_mf(new), c_obs_mf(o["cavity"]), c_obs_mf(o["model"]),
+                cnat(f), c_rdelta(d), cbool(barrier), cbool(stale), cnat(mode), c_in_mf(new), c_obs_mf(o["cavity"]), c_obs_mf(o["model"]),
                 c_obs_mf(o["msg"]), c_obs_mf(o["global"]), cbool(o["success"]), cbool(o["updated"])))
 
 
 def coq_raw(c, r):
-    steps = [c_rstep(s["f"], s["delta"], bool(s.get("stale")), bool(s.get("barrier")), s["new"], o)
+    steps = [c_rstep(s["f"], s["delta"], bool(s.get("stale")), bool(s.get("barrier")), s["new"], o,
+                     0 if not s["via"].startswith("inplace") else (1 if s.get("index") is None else 2))
              for s, o in zip(c["steps"], r["steps"])]
     return "CRaw %s %s %s %s %s" % (
         clist([c_in_mf(m) for m in c["init"]]), clist([c_obs_mf(m) for m in r["state0"]]), c_obs_mf(r["global0"]),
@@ -993,6 +1063,10 @@ def nontrivial(c):
 
 def kind_of(c):
     if c["kind"] == "raw":
+        if c.get("plate"):
+            return "raw-plated-inplace"
+        if any(s["via"].startswith("inplace") for s in c["steps"]):
+            return "raw-inplace"
         return "raw-stale" if any(s.get("stale") for s in c["steps"]) else "raw"
     if c["kind"] == "par":
         return "run-parallel" if c["parallel"] else "run-sequential"
